@@ -55,6 +55,10 @@ def m_clone(tier):
     return dict(alpha=["push", "pop", "remove", "clear", "mutate", "clone", "ce_probe", "ext_drop"],
                 MaxLen=2 if tier == "quick" else 3, MaxLenB=2 if tier == "quick" else 3, MaxExt=1,
                 OneHandle=True, srcs=["wrapper"], sinks=["drop", "push", "ext"], timeout=6000)
+def m_long(tier):
+    # length-dependent code paths (block-wise loops, word-wise copies): vectors of up to 9 / 17 elements, whole-vector operations only
+    return dict(alpha=["push", "clear", "clone", "drain"], MaxLen=9 if tier == "quick" else 17, MaxLenB=9 if tier == "quick" else 17, MaxExt=0, MaxOut=0, MaxRepl=0,
+                OneHandle=True, forms=[".."], srcs=["typed"], sinks=["drop"], timeout=6000)
 def m_lazy(tier):
     # lazy clones of element references, removal handles and kept drained items; depth 1..3; 0..k consumptions; every sink
     return dict(alpha=["push", "pop", "lazy", "drain", "keep", "hmutate", "mutate"], MaxLen=2, MaxLenB=1, MaxExt=1, MaxOut=1,      # (MaxLenB = 2 or MaxLen = 3 give 8-9 million transitions: too many to replay per configuration)
@@ -107,7 +111,7 @@ MODELS = {
     "lazyf": m_lazyf,
     "liar": m_liar,
     "raw": m_raw, "rawempty": m_rawempty, "wrong": m_wrong, "swap": m_swap, "spare": m_spare, "sparefixed": m_sparefixed,
-    "clone": m_clone,
+    "clone": m_clone, "long": m_long,
     "lazy": m_lazy,
     "clonefixed": m_clonefixed,
     "outlive": m_outlive,
@@ -156,10 +160,11 @@ def c03(tier):
     if tier == "quick":
         return [dict(model="elem", configs=cfgs(["heap8d", "heap0d"], (R,))), dict(model="range", configs=cfgs(["heap8d", "heap0d"], (R,))),
                 dict(model="xchg", configs=cfgs(["heap8d", "heap0d"], (R,))), dict(model="shift", configs=cfgs(["heap0d", "heap12d", "heap1n"], (R,))),
-                rnd(tier, ["heap8d"], nvecs=3)]
+                dict(model="long", configs=cfgs(["heap8c"], (R,))), rnd(tier, ["heap8d"], nvecs=3)]
     return [dict(model="elem", configs=cfgs(["heap8d", "heap160", "heap0d", "heap3n"], (R, D)) + cfgs(["heap8sy", "heap8cs", "heap8cy", "heap8css"], (R,))),
             dict(model="range", configs=cfgs(["heap8d", "heap160", "heap0d"], (R, D)) + cfgs(["heap8sy", "heap8css"], (R,))),
-            dict(model="xchg", configs=cfgs(["heap8d", "heap160", "heap0d"], (R, D))), rnd(tier, ["heap8d", "heap160", "heap0d", "fence24d"], nvecs=3)]
+            dict(model="xchg", configs=cfgs(["heap8d", "heap160", "heap0d"], (R, D))), dict(model="long", configs=cfgs(["heap8c", "heap0c"], (R, D))),
+            rnd(tier, ["heap8d", "heap160", "heap0d", "fence24d"], nvecs=3)]
 def c07(tier):
     if tier == "quick":
         return [dict(model="elem", configs=cfgs(["heap8d", "heap3n"], (R,))), dict(model="range", configs=cfgs(["heap8d", "heap3n"], (R,)))]
@@ -197,7 +202,7 @@ def c11(tier):
             dict(model="clonefixed", configs=cfgs(["stack8c", "stackn3"], (R, D)))]
 def c05(tier):
     if tier == "quick":
-        return [dict(model="elem", configs=cfgs(["fence8d", "fence3n", "heap8d"], (R,))), dict(model="range", configs=cfgs(["fence8d"], (R,))),
+        return [dict(model="elem", configs=cfgs(["fence8d", "fence3n", "heap8d"], (R,))), dict(model="range", configs=cfgs(["fence8d", "heap8d"], (R,))),
                 dict(model="shift", configs=cfgs(["fence24d", "fence3n", "fence160"], (R,))), dict(model="cap", configs=cfgs(["fence8d", "fence0d", "heap8d", "heap160", "fenceover8d"], (R,))),
                 rnd(tier, ["fence8d", "fence24d"])]
     return [dict(model="elem", configs=cfgs(["fence8d", "fence3n", "fence24d", "fence160", "fence0d", "heap8d"], (R, D))),
@@ -215,9 +220,9 @@ def c18(tier):
 def c08(tier):
     if tier == "quick":
         return [dict(model="clone", configs=cfgs(["heap8c", "fence24d", "heap3c", "heap0c", "fenceover3c", "fenceraw8c"], (R,))), dict(model="clonefixed", configs=cfgs(["stackn3", "stack8c"], (R,))),
-                rnd(tier, ["heap8c", "stack8c"])]
+                dict(model="long", configs=cfgs(["heap8c", "heap3c"], (R,))), rnd(tier, ["heap8c", "stack8c"])]
     return [rnd(tier, ["heap8c", "heap3c", "stack8c", "fence24d", "fenceover3c"], nvecs=3), dict(model="clone", configs=cfgs(["heap8c", "heap3c", "heap0c", "heap8css", "heap160", "fence24d", "fenceraw8c"], (R, D))),
-            dict(model="clonefixed", configs=cfgs(["stackn3", "stack8c"], (R, D)))]
+            dict(model="clonefixed", configs=cfgs(["stackn3", "stack8c"], (R, D))), dict(model="long", configs=cfgs(["heap8c", "heap3c", "heap0c", "fence24d"], (R, D)))]
 def c09(tier):
     if tier == "quick":
         return [dict(model="lazy", configs=cfgs(["heap8c", "heap160"], (R,))), dict(model="lazyf", configs=cfgs(["heap3c", "heap0c"], (R,))), rnd(tier, ["heap8c"])]
